@@ -37,7 +37,7 @@ type cyc struct{ Next *cyc }
 // Unmarshalable reports whether json.Marshal fails on the materialised value.
 func (v Val) Unmarshalable() bool {
 	switch v.Kind {
-	case "chan", "func", "nan", "cycle", "marshalerr", "badjson":
+	case "chan", "func", "nan", "cycle", "marshalerr", "badjson", "badraw", "badraw2":
 		return true
 	}
 	return false
@@ -70,6 +70,12 @@ func (v Val) Go() interface{} {
 		return errMarshaler{}
 	case "badjson":
 		return badMarshaler{}
+	case "badraw":
+		return json.RawMessage(`{"a":`)
+	case "badraw2":
+		return json.RawMessage(`null,"error":{"code":"x","message":"y"}`)
+	case "raw":
+		return json.RawMessage(v.JSON)
 	}
 	return nil
 }
@@ -77,7 +83,7 @@ func (v Val) Go() interface{} {
 // Wire returns the JSON text the value must have on the wire.
 func (v Val) Wire() []byte {
 	switch v.Kind {
-	case "json":
+	case "json", "raw":
 		return []byte(v.JSON)
 	case "ref":
 		b, _ := json.Marshal(map[string]string{"rid": v.S})
@@ -242,7 +248,11 @@ func ResValue(allowDelete bool) *rapid.Generator[Val] {
 func AnyVal(unmarshalablePerMille int) *rapid.Generator[Val] {
 	return rapid.Custom(func(t *rapid.T) Val {
 		if rapid.IntRange(0, 999).Draw(t, "unm") < unmarshalablePerMille {
-			return Val{Kind: rapid.SampledFrom([]string{"chan", "func", "nan", "cycle", "marshalerr", "badjson"}).Draw(t, "ukind")}
+			return Val{Kind: rapid.SampledFrom([]string{"chan", "func", "nan", "cycle", "marshalerr", "badjson", "badraw", "badraw2"}).Draw(t, "ukind")}
+		}
+		if rapid.IntRange(0, 5).Draw(t, "asraw") == 0 {
+			// handlers often hand over pre-encoded JSON
+			return Val{Kind: "raw", JSON: JSONText(3).Draw(t, "json")}
 		}
 		return Val{Kind: "json", JSON: JSONText(3).Draw(t, "json")}
 	})
